@@ -5,7 +5,8 @@ From Coq Require Import ZArith List Bool.
 Import ListNotations.
 Open Scope Z_scope.
 
-Inductive pyexn := PyValueError | PyIndexError.
+(* PyTypeError .. PyRecursionError are raised by the dispatch layer's run-time library (Py/DispatchLib.v) only *)
+Inductive pyexn := PyValueError | PyIndexError | PyTypeError | PyKeyError | PyAttributeError | PyUnicodeError | PyUnwrapError | PyRecursionError.
 Inductive pyres (A : Type) := POk (a : A) | PRaise (e : pyexn).
 Arguments POk {A} a.
 Arguments PRaise {A} e.
